@@ -53,6 +53,16 @@ def cases(tier, rng):
         q = order[0]
         ops += [build(q, qs[q])] + ops_for(rng, q, "asks")
         out.append((hist(rules, ops), "sequential"))
+    # long histories: 12-40 queries one after the other over up to 6 slots (the id counter, the flag and the slots are reused many times)
+    for _ in range(25 if tier == "quick" else 500):
+        rules, preds = g.program()
+        qs = [g.query(preds) for _ in range(6)]
+        ops = []
+        for r in range(rng.choice([12, 20, 40])):
+            q = rng.randrange(len(qs))
+            ops += [build(q, qs[q])] + ops_for(rng, q)
+        ops += [build(0, qs[0])] + ops_for(rng, 0, "asks")
+        out.append((hist(rules, ops), "sequential"))
     # queries built from TEXT (parse_query), zero-argument queries among them, after timed-out / abandoned / finished ones
     nt = 150 if tier == "quick" else 3000
     for _ in range(nt):
@@ -79,7 +89,7 @@ def cases(tier, rng):
         out.append((hist(rules, [build(0, q0), build(1, q1)] + [ask(0), ask(1)] * 3), "interleaved"))
     return out
 
-RULE = ("histories of 3-5 query builds over 2-3 queries of a random program (cut, not, print, disjunctions, built-ins): each "
+RULE = ("histories of 3-5 (and 13-41) query builds over 2-3 (6) queries of a random program (cut, not, print, disjunctions, built-ins): each "
         "build is followed by requests through next_solution (3-9, i.e. also after exhaustion), solve, solve_all, by an "
         "abandoned search (1-2 requests) or by a search that times out (hook: flag raised at read 0,1,2,3,5 or 8); the first "
         "query is then built and asked again; the same with queries built from text by parse_query (zero-argument queries `go`, "
